@@ -29,18 +29,19 @@ func (a Arch) MarshalControl() (string, error) {
 }
 
 func (a Arch) String() string {
-	/* ABI-OS-CPU -- gnu-linux-amd64 */
-	els := []string{}
-	if a.ABI != "any" && a.ABI != "all" && a.ABI != "gnu" && a.ABI != "" {
-		els = append(els, a.ABI)
+	/* ABI-OS-CPU -- gnu-linux-amd64. Use the shortest Debian name that
+	 * parses back to exactly this triple: `amd64` for gnu-linux-amd64,
+	 * `kfreebsd-amd64` for gnu-kfreebsd-amd64, `linux-any` for
+	 * any-linux-any, and the full form otherwise. */
+	for _, name := range []string{a.CPU, a.OS + "-" + a.CPU} {
+		if name == "" {
+			continue
+		}
+		if parsed, err := ParseArch(name); err == nil && *parsed == a {
+			return name
+		}
 	}
-
-	if a.OS != "any" && a.OS != "all" && a.OS != "linux" {
-		els = append(els, a.OS)
-	}
-
-	els = append(els, a.CPU)
-	return strings.Join(els, "-")
+	return a.ABI + "-" + a.OS + "-" + a.CPU
 }
 
 func (set ArchSet) String() string {
